@@ -56,6 +56,8 @@ def observe(H, g, post, rng):
     o["size"] = _try(lambda: [[iE(e), int(s)] for e, s in size.asdict().items()])
     o["sizel"] = _try(lambda: _ints(size.aslist()))
     o["ordl"] = _try(lambda: _ints(h["order"].aslist()))
+    o["sized"] = _try(lambda: [[k, _ints(H.edges.size(degree=k).aslist()), _ints(H.edges.order(degree=k).aslist())]
+                               for k in (1, 2)])
     p = _try(lambda: pandas_of(size, iE))
     o["sizepi"], o["sizepv"] = p if p is not ERR else (ERR, ERR)
     m = h["multi"]
@@ -76,8 +78,8 @@ def observe(H, g, post, rng):
         "degree", (v, v2) if md == "between" else v, md)])] for md in MODES]
     o["filte"] = [[md, v, v2, _try(lambda md=md: [iE(e) for e in H.edges.filterby(
         "size", (v, v2) if md == "between" else v, md)])] for md in MODES]
-    av = rng.choice([1, 2, 4])
-    missing = rng.choice([None, 1, 3])
+    av = rng.choice([0, 1, 2, 4])
+    missing = rng.choice([None, 0, 1, 3])
     scalar_only = all(isinstance(d.get("color"), (int, type(None))) and not isinstance(d.get("color"), bool)
                       for d in H._node_attr.values())
     o["fattr"] = [] if not scalar_only else [[md, av, av + 1, 0, -1000 if missing is None else missing, _try(lambda md=md: [
@@ -101,4 +103,39 @@ def observe(H, g, post, rng):
     o["empty"] = _try(lambda: [iE(e) for e in H.edges.empty()])
     o["max"] = _try(lambda: [iE(e) for e in H.edges.maximal()])
     o["maxs"] = _try(lambda: [iE(e) for e in H.edges.maximal(strict=True)])
+    return {"obs": o}
+
+
+def _held_d(H):
+    d = H.__dict__.get("_verif_held")
+    if d is None:
+        d = {"nv": H.nodes, "ev": H.edges, "deg": H.nodes.degree, "indeg": H.nodes.in_degree,
+             "outdeg": H.nodes.out_degree, "size": H.edges.size, "order": H.edges.order,
+             "ts": H.edges.tail_size, "hs": H.edges.head_size, "to": H.edges.tail_order, "ho": H.edges.head_order}
+        H.__dict__["_verif_held"] = d
+    return d
+
+
+def observe_directed(H, g, post, rng):
+    """directed statistics, from stat objects held since the start of the history"""
+    if H is None:
+        return {"obs": {}}
+    h = _held_d(H)
+    iN, iE = g.inv_node, g.inv_edge
+    o = {}
+    o["vn"] = _try(lambda: [iN(n) for n in h["nv"]])
+    o["ve"] = _try(lambda: [iE(e) for e in h["ev"]])
+    for key in ("deg", "indeg", "outdeg"):
+        o[key] = _try(lambda key=key: [[iN(n), int(d)] for n, d in h[key].asdict().items()])
+    o["dego"] = _try(lambda: [[k, _ints(H.nodes.degree(order=k).aslist()), _ints(H.nodes.in_degree(order=k).aslist()),
+                               _ints(H.nodes.out_degree(order=k).aslist())] for k in (0, 1, 2)])
+    o["size"] = _try(lambda: [[iE(e), int(s)] for e, s in h["size"].asdict().items()])
+    o["ordl"] = _try(lambda: _ints(h["order"].aslist()))
+    o["tails"] = _try(lambda: _ints(h["ts"].aslist()))
+    o["heads"] = _try(lambda: _ints(h["hs"].aslist()))
+    o["tailo"] = _try(lambda: _ints(h["to"].aslist()))
+    o["heado"] = _try(lambda: _ints(h["ho"].aslist()))
+    o["sized"] = _try(lambda: [[k, _ints(H.edges.size(degree=k).aslist()), _ints(H.edges.tail_size(degree=k).aslist()),
+                                _ints(H.edges.head_size(degree=k).aslist()), _ints(H.edges.tail_order(degree=k).aslist()),
+                                _ints(H.edges.head_order(degree=k).aslist())] for k in (1, 2, 3)])
     return {"obs": o}
